@@ -1429,19 +1429,40 @@ class Simulation:
 
         """
 
-        # Replace residual by provided vector
-        # (division by weight is undone in gradient).
-        with np.errstate(invalid='ignore'):  # (For division by cplx-NaN.)
-            self.data.residual[...] = vector/self.data.weights.data
+        # Ensure misfit has been computed (and therefore the electric fields,
+        # the residual, and the weights).
+        _ = self.misfit
 
-        # Reset gradient, so it will be computed.
-        self._gradient = None
-        for name in ['_dict_bfield', '_dict_bfield_info']:
-            if hasattr(self, name):
-                delattr(self, name)
+        # Keep the actual residual and gradient; they are restored afterwards,
+        # so that `jtvec` does not alter what `gradient` and `misfit` return.
+        residual = self.data.residual.data.copy()
+        gradient = self._gradient
 
-        # Return gradient from weighted residual `vector`.
-        return self.gradient
+        try:
+            # Replace residual by provided vector
+            # (division by weight is undone in gradient).
+            with np.errstate(invalid='ignore'):  # (For division by cplx-NaN.)
+                self.data.residual[...] = vector/self.data.weights.data
+
+            # Reset gradient, so it will be computed.
+            self._gradient = None
+            for name in ['_dict_bfield', '_dict_bfield_info']:
+                if hasattr(self, name):
+                    delattr(self, name)
+
+            # Compute gradient from weighted residual `vector`.
+            jtvec = self.gradient
+
+        finally:
+            # Restore residual and gradient; remove the back-propagated
+            # fields, as they belong to `vector`, not to the residual.
+            self.data.residual[...] = residual
+            self._gradient = gradient
+            for name in ['_dict_bfield', '_dict_bfield_info']:
+                if hasattr(self, name):
+                    delattr(self, name)
+
+        return jtvec
 
     # UTILS
     @property
